@@ -435,6 +435,10 @@ class Reconfigure:
         """
         if not force:
             self._check()
+        if self._bind:
+            # Find the branch to bind to before anything is changed: failing
+            # later would leave a half reconfigured location behind.
+            bind_branch = branch.Branch.open(self._select_bind_location())
         if self._create_repository:
             if self.local_branch and not self._destroy_branch:
                 old_repo = self.local_branch.repository
@@ -506,8 +510,7 @@ class Reconfigure:
         if self._unbind:
             self.local_branch.unbind()
         if self._bind:
-            bind_location = self._select_bind_location()
-            local_branch.bind(branch.Branch.open(bind_location))
+            local_branch.bind(bind_branch)
         if self._destroy_repository:
             self.controldir.destroy_repository()
         if self._repository_trees is not None:
